@@ -141,6 +141,20 @@ def gen_cases(ctx):
         add(p, ["-type=" + p["shadowed_same"]], ["named-one", "tparam-same-file"])
         p = g.package(cmd, n_elig=2, extra=("tparam-other-file",))
         add(p, ["-type=*"], ["star", "tparam-other-file"], directive="exact")
+        # ---- another identifier of that name defined in an EARLIER-sorting file ----
+        for sh in ["embedded-earlier", "field-earlier", "method-earlier", "ifaceembed-earlier", "local-earlier", "otherpkg-earlier"]:
+            p = g.package(cmd, n_elig=2, nfiles=3, extra=(sh,))
+            if p.get("earlier"):
+                add(p, ["-type=" + p["earlier"]], ["named-one", sh])
+                p = g.package(cmd, n_elig=2, nfiles=3, extra=(sh,))
+                fn = [f for f, t in declared_names(p) if t["name"] == p["earlier"]][0]
+                add(p, ["-file=" + fn, "-type=" + p["earlier"]], ["file+named-in", sh])
+        # ---- an interface embedding a universe type (used to panic in rest's filter; repaired in /repo 83db8cb) ----
+        p = g.package(cmd, n_elig=2, extra=("univ-embed",))
+        add(p, ["-type=*"], ["star", "univ-embed"], directive="exact")
+        p = g.package(cmd, n_elig=2, extra=("univ-embed",))
+        add(p, ["-file=" + [f["name"] for f in p["files"] if any(d["k"] == "types" and any(t["name"] == "Failing" for t in d["specs"]) for d in f["decls"])][0]],
+            ["file", "univ-embed"])
         # ---- grouped type declarations ----
         p = g.package(cmd, n_elig=3, extra=("grouped",))
         add(p, ["-type=*"], ["star", "grouped"], directive="gotool")
@@ -171,7 +185,8 @@ def gen_cases(ctx):
         if rng.random() < 0.15:
             extra.append("grouped")
         if rng.random() < 0.12:
-            extra.append(rng.choice(["tparam-other-file", "tparam-same-file", "tparam-of-type-other-file"]))
+            extra.append(rng.choice(["tparam-other-file", "tparam-same-file", "tparam-of-type-other-file", "embedded-earlier",
+                                     "field-earlier", "method-earlier", "ifaceembed-earlier", "otherpkg-earlier"]))
         p = g.package(cmd, extra=tuple(extra), colocate=rng.random() < 0.2)
         el = p["elig_hint"]
         decl = declared_names(p)
@@ -180,6 +195,9 @@ def gen_cases(ctx):
         if r < 0.35:
             n = rng.choice([1, 1, 2, 3])
             pool = el * 3 + allnames + ["Missing"]
+            focus = p.get("earlier") or p.get("shadowed")
+            if focus:
+                pool += [focus] * 12
             names = []
             for _ in range(n):
                 c = rng.choice(pool)
@@ -190,7 +208,7 @@ def gen_cases(ctx):
             if rng.random() < 0.2:
                 sel = ["-file=" + rng.choice(p["files"])["name"]] + sel
                 tags = ["file+named-random"]
-            add(p, sel, tags + [e for e in extra if e.startswith("tparam-")], order=rng.choice(["sel-last", "sel-first"]))
+            add(p, sel, tags + [e for e in extra if e.startswith("tparam-") or e.endswith("-earlier")], order=rng.choice(["sel-last", "sel-first"]))
         elif r < 0.55:
             sel = ["-file=" + rng.choice(p["files"])["name"]]
             if rng.random() < 0.4:
@@ -241,7 +259,7 @@ def observe(c, r):
             continue
         if seen_ok and ln.startswith("\t"):
             listed.append(ln.strip())
-    im["listed"] = dash(sorted(listed))
+    im["listed"] = dash(listed)      # in the order printed: main.go sorts the names
     diag = any(ln.startswith("❌") or ln.startswith("⚠") for ln in err.splitlines())
     im["diag"] = "yes" if diag else ("usage" if run["rc"] == 2 and "Usage" in err else "no")
     return im, held
